@@ -425,6 +425,16 @@ impl Session {
         if app.settings_tab_selected >= 7 {
             return Err(Fail::new("selection:settings-tab", format!("settings tab {}", app.settings_tab_selected)));
         }
+        if app.show_settings {
+            // the item selected in the settings dialog must be one of the rows the tab renders
+            let counts = trippy_tui::verif::verif_settings_item_counts(app);
+            let n = counts.get(app.settings_tab_selected).copied().unwrap_or(0);
+            if let Some(i) = app.setting_table_state.selected() {
+                if i >= n.max(1) {
+                    return Err(Fail::new("selection:settings-item", format!("settings tab {} has {n} items but item {i} is selected", app.settings_tab_selected)));
+                }
+            }
+        }
         Ok(())
     }
 }
